@@ -306,12 +306,7 @@ class FuncView:
                 if d is self.cfg.entry or d.stmt is None:
                     keep.append(d)
                     continue
-                contra = False
-                for t, p in si.effective_guards(d.stmt):
-                    for txt, pol in canon_tests(t, p):
-                        if (txt, not pol) in assume:
-                            contra = True
-                if not contra:
+                if not contradicts(si.effective_guards(d.stmt), assume):
                     keep.append(d)
             # a definition that certainly executes under the assumption kills the earlier ones it is dominated by
             at_node = at if isinstance(at, Node) else self.node_of(at)
@@ -323,10 +318,8 @@ class FuncView:
             for d in keep:
                 if d is self.cfg.entry or d.stmt is None:
                     continue
-                fs = set()
-                for t, p in si.effective_guards(d.stmt):
-                    fs.update(canon_tests(t, p))
-                if fs <= (set(assume) | at_facts):
+                known = set(assume) | at_facts
+                if all(truth_under(t, known) == p for t, p in si.effective_guards(d.stmt)):
                     sure.append(d)
             killed = set()
             for d2 in sure:
@@ -860,6 +853,42 @@ def canon_tests(test, polarity=True):
                 t = ast.Compare(left=t.comparators[0], ops=[ast.Eq()], comparators=[t.left])
         out.append((U(t), p))
     return out
+
+
+def truth_under(test, assume):
+    """Kleene truth value (True/False/None) of ``test`` under a set of assumed (canonical text, polarity) facts;
+    conjunctions, disjunctions and negations are evaluated structurally, so `a and b` is False as soon as `a` is assumed False
+    and True when both are assumed True."""
+    if isinstance(test, ast.UnaryOp) and isinstance(test.op, ast.Not):
+        v = truth_under(test.operand, assume)
+        return None if v is None else (not v)
+    if isinstance(test, ast.BoolOp):
+        vals = [truth_under(v, assume) for v in test.values]
+        if isinstance(test.op, ast.And):
+            if any(v is False for v in vals):
+                return False
+            return True if all(v is True for v in vals) else None
+        if any(v is True for v in vals):
+            return True
+        return False if all(v is False for v in vals) else None
+    facts = dict()
+    for txt, pol in assume:
+        facts[txt] = pol
+    ct = canon_tests(test, True)
+    if len(ct) == 1:
+        txt, pol = ct[0]
+        if txt in facts:
+            return facts[txt] == pol
+    return None
+
+
+def contradicts(guards, assume) -> bool:
+    """some guard (test, polarity) is decided the other way by the assumptions"""
+    for t, p in guards:
+        v = truth_under(t, assume)
+        if v is not None and v != p:
+            return True
+    return False
 
 
 def canon_guards(si, node, within=None, expand=None):
